@@ -4,6 +4,8 @@ import (
 	"fmt"
 	"strings"
 
+	"verif/mc/impl"
+
 	"verif/mc/fw"
 	"verif/mc/gen"
 	"verif/mc/ref"
@@ -61,6 +63,8 @@ type seqSpec struct {
 	mustSee           []string
 	budgetQ, budgetT  int
 	extra             func(c *fw.Ctx, do func(src string))
+	moreSubs          []*fw.Sub
+	moreRun           func(c *fw.Ctx)
 	assumptions       []string
 }
 
@@ -102,9 +106,12 @@ func enumSeq(s seqSpec, c *fw.Ctx, do func(src, shard string) bool) {
 func registerSeq(s seqSpec) {
 	seqSpecs[s.id] = s
 	fw.Register(&fw.Check{
-		ID: s.id, Level: "model_checking", Rule: s.rule, Subs: []*fw.Sub{s.sub},
+		ID: s.id, Level: "model_checking", Rule: s.rule, Subs: append([]*fw.Sub{s.sub}, s.moreSubs...),
 		BudgetQuick: s.budgetQ, BudgetThorough: s.budgetT, Assumptions: s.assumptions,
 		Run: func(c *fw.Ctx) {
+			if s.moreRun != nil {
+				s.moreRun(c)
+			}
 			enumSeq(s, c, func(src, shard string) bool {
 				c.Do(s.sub, &progCase{Src: src, Shard: shard})
 				return !c.Expired()
@@ -228,6 +235,18 @@ func init() {
 		rule: "explicit enumeration of all toplevel statement sequences up to length L (quick 5, thorough 6; rejected prefixes are not extended) over a 30-symbol alphabet: three distinguishable block definitions of two types, bind with every selector (none, 1, first, last, all) x target (struct, slice), " +
 			"bind of another / of a missing type, the compile-error forms (:all->struct, :2, :foo, ->oops), a bind inside a block, a block of the bound type nested inside another block (must not be selected), a runtime error. Compared with a trivial reference: binding kind and exact blocks, runtime-error class, rejection, one warning per bind after the first, nil binding without bind.",
 		sub: newRefSub("c04.seq"), alpha: a4,
+		moreSubs: []*fw.Sub{subC04Kept},
+		moreRun: func(c *fw.Ctx) {
+			n := len(c04KeptProgs)
+			for a := 0; a < n; a++ {
+				for b := 0; b < n; b++ {
+					c.Do(subC04Kept, &c04Kept{Order: []int{a, b}})
+					for d := 0; d < n; d++ {
+						c.Do(subC04Kept, &c04Kept{Order: []int{a, b, d}})
+					}
+				}
+			}
+		},
 		extra: func(c *fw.Ctx, do func(string)) {
 			// bind statements whose block-type constant has index >= 241 (2- and 3-byte operands)
 			for _, s := range gen.ScaledFamilies(false) {
@@ -240,3 +259,46 @@ func init() {
 		mustSee: []string{"accepted-ok", "accepted-rterr:bind-none", "accepted-rterr:bind-count", "rejected:all-needs-slice", "rejected:selector", "rejected:target"},
 	})
 }
+
+// ---------------------------------------------------------------- C04: a returned Binding stays what it was
+
+var c04KeptProgs = []string{
+	"def s \"a\" { v = 1 }\ndef t { w = 0 }\ndef s \"b\" { v = 2 }\nbind s:all -> slice",
+	"def t \"x\" { v = 10 }\ndef t \"y\" { v = 20 }\ndef t \"z\" { v = 30 }\nbind t:all -> slice",
+	"def s { v = 5 }\ndef s { v = 6 }\nbind s:last -> slice",
+	"def u { v = 7 }\nbind u -> struct",
+	"def s { v = 8 }\ndef s { v = 9 }\nbind s:first -> slice\nbind s:all -> slice",
+}
+
+type c04Kept struct {
+	Order []int `json:"order"`
+}
+
+func (c *c04Kept) Key() string { return fmt.Sprint(c.Order) }
+
+// c04.kept: programs are interpreted one after the other; the Binding (and blocks) each one
+// returned must still read the same after the later runs.
+var subC04Kept = &fw.Sub{Name: "c04.kept", New: func() fw.Case { return &c04Kept{} }, Exec: func(cs fw.Case) *fw.Fail {
+	c := cs.(*c04Kept)
+	return fw.Guard(func() *fw.Fail {
+		type kept struct {
+			was string
+			now func() string
+		}
+		var ks []kept
+		for step, k := range c.Order {
+			r := impl.Interpret(c04KeptProgs[k])
+			bl, bi := r.Blocks, r.Binding
+			snap := func() string { return "blocks=" + impl.BlocksStr(bl) + " binding=" + impl.BindingStr(bi) }
+			ks = append(ks, kept{snap(), snap})
+			for i, kp := range ks {
+				if now := kp.now(); now != kp.was {
+					return fw.Failf(fmt.Sprintf("the result returned by run %d stays what it was: %s", i, kp.was), "after run %d (order %v) it reads %s", step, c.Order, now)
+				}
+			}
+		}
+		fw.TallyOutcome("kept-binding-stable")
+		fw.TallyNontrivial()
+		return nil
+	})
+}}
